@@ -4,16 +4,9 @@ from props import _fetch
 
 LEVEL = "proof"
 MODULE = "Phil.Props.C06"
-LEVEL_TEXT = ("Lean theorems about the merge model with the .tmp marks modelled as a returned set of consumed source ids: "
-              "tracking is transparent (the result does not depend on it, by construction of the model: one function returns "
-              "both), and the reported list is the active source definitions not consumed. The model is tied to /repo by a "
-              "correspondence run comparing the result tree and the (path, line) list of unused definitions; the oracle "
-              "evaluates the statement on the implementation: reported list == active source definitions whose full path names "
-              "no active master parameter, in source order, each once with path and line; result identical with tracking off; "
-              "change_default_phil_values raises Sorry listing them.")
-LEVEL_NOTE = ("Sources are variable-free (a definition used only as a $variable is marked consumed by the code; excluded here, "
-              "see DESIGN). Masters with nested multiples are included.")
-TECHNIQUE = "Lean 4 theorems on consumed-set tracking in the fetch model + differential correspondence + set-comparison oracle"
+LEVEL_TEXT = 'Lean theorems about the merge model with the .tmp marks modelled as the returned set of consumed source ids: tracking is transparent (one function returns both), used ids are source ids (any master), and the exact characterisation: the reported list is precisely the enabled source definitions whose dotted path names no master parameter, with path and line — on flat masters (flat_unused_exact, reported_iff), nested masters (tree_unused_exact, reported_iff_tree), with .multiple definitions (tree_multi_unused_exact) and with .multiple scopes (ms_unused_exact, reported_iff_ms, fetchRoot_ms_unused_exact). Tied to /repo by a correspondence run comparing the unused list; the oracle evaluates the statement on the implementation (set equality with path and line, tracking transparent, master itself as a source, change_default_phil_values).'
+LEVEL_NOTE = 'Variable-free sources in the exactness theorems (a definition used only as a $variable is marked consumed by the code; the suite pins that). D46 (master passed as its own source reported its own definitions) fixed in /repo.'
+TECHNIQUE = 'Lean 4 exact characterisation of the unused list on the fetch model + differential correspondence + set-comparison oracle'
 RULE = ("masters x source lists containing known, misspelt, wrongly nested, repeated and disabled definitions; non-trivial = "
         "at least one source definition is unused; distinct = (master, sources)")
 ASSUMPTIONS = ["variable-free, alias-free sources"]
